@@ -91,6 +91,61 @@ def check(ctx):
         c19.check_partial_unit_counts(ctx, ctx.facts(cfg), "" if cfg == "native" else "@" + cfg, prefix="C06.R6")
         from core import Relabel
         c19.check_config(Relabel(ctx, {"C19.R2.validation-matches-builder": "C06.R6.validation-matches-builder"}), ctx.facts(cfg), "" if cfg == "native" else "@" + cfg)
+        check_sparse_validation(ctx, ctx.facts(cfg), "" if cfg == "native" else "@" + cfg)
+        check_no_read_ahead(ctx, ctx.facts(cfg), "" if cfg == "native" else "@" + cfg)
+
+
+def check_no_read_ahead(ctx, F, tag):
+    """"Exactly that many bytes are consumed on load, so structures written back to back load back in sequence": the loaders read
+    from the caller's reader directly.  A buffering adaptor put around that reader inside a loader (BufReader::new(reader)) reads
+    ahead of the structure and the surplus is lost when the loader returns -- there is no way to hand it back through `T: Read`.
+    Zero-count rule over every function that takes the caller's reader."""
+    hits = []
+    for b in F.all_bodies():
+        if "::tests::" in b.name or b.name.startswith("internal::"):
+            continue
+        for bi, t in b.calls():
+            cn = callee_name(t)
+            if cn.startswith("std::io::BufReader::<") and cn.split("::")[-1].split("<")[0] in ("new", "with_capacity"):
+                src = b.term_of_operand(t["args"][-1])
+                # wrapped around a reader parameter of the function (a `&mut T` the caller keeps using), not around a file the function opened
+                if any(isinstance(x, tuple) and x and x[0] == "param" for x in subterms(src)) and \
+                        not any(isinstance(x, tuple) and x and x[0] == "call" and ("File::open" in x[1] or "OpenOptions" in x[1]) for x in subterms(src)):
+                    hits.append((b.name, loc(t["sp"])))
+    ctx.ob("C06.R7.no-read-ahead-on-the-callers-reader", "crate" + tag, "src/", not hits, "who-may-call",
+           "buffering readers wrapped around a reader the caller passed in (count must be 0): %s" % hits, nontrivial=False, positive=True)
+
+
+def check_sparse_validation(ctx, F, tag):
+    """SparseVector::load accepts a file only if `high` has low.len() + buckets bits; the builder allocates `high` with the bucket
+    count of SparseBuilder::get_buckets.  Discharged when the loader's count is that same function of (len, low.width()) -- the
+    two sides then agree by construction.  A loader that computes the count some other way may still agree; that cannot be decided
+    from the shape (undecided), only a recognisably different argument list is a violation."""
+    lb = F.body("<sparse_vector::SparseVector as serialize::Serialize>::load")
+    L = serfmt.load_seq(lb)
+    verdict, detail = None, "no comparison of high.len() with low.len() + a bucket count found"
+    cmps = []
+    from guards import edge_facts
+    for u, v, f in edge_facts(lb):
+        if f[0] == "cmp" and f[1] in ("Ne", "Eq"):
+            cmps.append((f[2], f[3]))
+    for bi, si, st in lb.stmts():
+        if st["s"] == "assign" and st["rv"]["r"] == "bin" and st["rv"]["op"] in ("Ne", "Eq"):
+            t = lb.term_of_rvalue(st["rv"])
+            cmps.append((t[2], t[3]))
+    for x, y in cmps:
+        for a, b_ in ((x, y), (y, x)):
+            b0 = core(b_)
+            if b0[0] == "bin" and b0[1] == "Add":
+                for p_, q_ in ((b0[2], b0[3]), (b0[3], b0[2])):
+                    q0 = core(q_)
+                    if q0[0] == "call" and q0[1] == "sparse_vector::SparseBuilder::get_buckets":
+                        lenarg, warg = core(q0[2][0]), core(q0[2][1])
+                        ok_len = len(L) >= 1 and L[0]["payload"] is not None and lenarg == core(lb.term_of_local(L[0]["payload"]))
+                        ok_w = warg[0] == "call" and warg[1].endswith("::width")
+                        verdict = bool(ok_len and ok_w)
+                        detail = "high.len() is compared with low.len() + get_buckets(%s, %s): first argument is the loaded length: %s, second is low.width(): %s" % (tstr(lenarg)[:40], tstr(warg)[:40], ok_len, ok_w)
+    ctx.ob("C06.R6.validation-matches-builder", "sparse-buckets" + tag, loc(lb.raw["span"]), verdict, "sibling-agreement", detail)
 
 
 def flatten(ctx, name, H, B, where, tag):
@@ -161,7 +216,7 @@ def check_config(ctx, F, tag):
                 for bi, st in aggs:
                     ops = dict(zip(st["rv"]["fields"], st["rv"]["ops"]))
                     if f not in ops:
-                        ctx.ob("C06.R1.loaded-into-written-field", "%s.%s%s" % (name, f, tag), loc(st["sp"]), False, "payload-provenance", "written field %s is not set by load" % f)
+                        ctx.ob("C06.R1.loaded-into-written-field", "%s.%s%s" % (name, f, tag), loc(st["sp"]), False, "payload-provenance", "written field %s is not set by load" % f, positive=True)
                         continue
                     root = root_local(lb, ops[f])
                     okp = root is not None and root == l["payload"]
@@ -354,6 +409,10 @@ def check_basic(ctx, F, by_name, tag):
         LEN = Or(Call(lenf, Param(0)), Call(lambda x: x.endswith("::len") and "slice" in x, Call(bytesf, Param(0))))
         okb = len(wa) == 2
         detail = "%d write_all calls (directly or through one helper)" % len(wa)
+        if len(wa) != 2 and any(callee_written(t) in ("std::io::Write::write_vectored", "std::io::Write::write") for _, t in bb.calls()) or \
+                (len(wa) != 2 and any(callee_written(t) in ("std::io::Write::write_vectored", "std::io::Write::write") for n_ in {callee_name(t) for _, t in bb.calls()} if F.has_body(n_) for _, t in F.body(n_).calls())):
+            okb = None       # the body is written some other way (vectored / partial writes with their own bookkeeping): not a shape this formula rule reads
+            detail += "; the body also uses partial / vectored writes"
         if okb:
             first = m(Call(bytesf, Param(0)), wa[0]["args"][1]) and wa[0]["mod"] == "once" and core(wa[0]["args"][0])[:2] == ("param", 1)
             env = {}
@@ -381,6 +440,11 @@ def check_basic(ctx, F, by_name, tag):
         re = calls_named(lb, lambda x: x == "std::io::Read::read_exact")
         re.sort(key=lambda x: serfmt.rpo(lb)[x[0]])
         okl = len(re) == 2
+        if len(re) == 1:
+            # the padding is not consumed by a second read_exact: skipped some other way (a helper over io::copy, ..), which this
+            # formula rule cannot read; what C14.R2 asks of such a skip (the count is compared) is decided there
+            okl = None
+            detail = "bytes read by read_exact, padding consumed by a construction this rule does not know"
         if okl:
             env = {}
             first = m(Call(lambda x: x.endswith("::as_mut_slice"), Call("std::vec::from_elem", Const(0), Bind("size"))), lb.term_of_operand(re[0][1]["args"][1]), env) and core(env["size"]) == core(size)
@@ -472,7 +536,8 @@ def check_basic(ctx, F, by_name, tag):
     if rt[0] == "bin" and rt[1] == "Add" and [op for op, _, _, _ in ops] == ["Add"]:
         for one, rest in ((rt[2], rt[3]), (rt[3], rt[2])):
             rest = core(rest)
-            if m(Const(1), one) and rest[0] == "var":
+            from guards import canon
+            if (m(Const(1), one) or canon(F, one) == ("const", 1)) and rest[0] == "var":
                 vals = [(d[0], sb.term_of_rvalue(d[3]) if d[2] == "assign" else sb.term_of_call(d[3])) for d in sb.defs().get(rest[1], []) if d[2] in ("assign", "call")]
                 zero = [v for v in vals if m(Const(0), v[1])]
                 some = [v for v in vals if m(Call("serialize::Serialize::size_in_elements", ANY), v[1])]
